@@ -224,6 +224,7 @@ def make_hungry(seed: int):
             inner = op('CALL', b1(h))
             for _ in range(r.randrange(1, 5)):
                 inner = r.choice([op('TRUE') + block('IF', inner), block('TRY_EXCEPT', inner, b''),
+                                  block('TRY_EXCEPT', op('FALSE') + op('VERIFY'), inner), op('TRUE') + block('LOOP', inner + op('FALSE')),
                                   op('TRUE') + block('IF_ELSE', inner, b'')])
             parts.append(op('DEF', b1(h), u16(len(inner)), inner) + op('CALL', b1(h)))
         elif c == 7:
@@ -263,6 +264,9 @@ def make_cachey(seed: int):
     r = random.Random(seed ^ 0xC08)
     seeds = [bytes([i + 1]) * 32 for i in range(3)]
     sc = {f'sigfield{i}': r.randbytes(r.choice([1, 8, 32])) for i in range(1, 9) if r.random() < 0.7}
+    for k in list(sc):                 # mutable embedder values: aliasing into the stack would let ops edit them
+        if r.random() < 0.15:
+            sc[k] = bytearray(sc[k])
     sc['timestamp'] = NOW + r.choice([0, 5, -5])
     for k, v in [('note', b'\x01'), ('memo', 'text'), ('n', 7), ('f', 1.5), ('lst', [b'a', b'b']), ('E', b'e'), ('P', b'p'),
                  ('x', b'x'), ('IR', b'ir'), ('s', b's')]:
@@ -280,6 +284,10 @@ def make_cachey(seed: int):
             parts.append(push(r.randbytes(3)) + op('POP0') if r.random() < 0.5 else push(b'a') + push(b'b') + op('POP1', b'\x02'))
         elif c < 0.65:
             parts.append(block('TRY_EXCEPT', r.choice([op('FALSE') + op('VERIFY'), g.s_cache(1), op('CALL', b'\x09')]), g.s_cache(1)))
+        elif c < 0.7:      # read an embedder value and combine it in place with a longer operand
+            k = r.choice([x for x in sc if isinstance(x, str)]).encode()
+            parts.append(op('GET_VALUE', b1(len(k)), k) + push(r.randbytes(40)) + op(r.choice(['XOR', 'OR', 'AND', 'CONCAT']))
+                         + op('GET_MESSAGE', b'\x00'))
         elif c < 0.8:
             parts.append(r.choice([g.s_curve, g.s_adapter, g.s_sig, g.s_invoke, g.s_getvalue, g.s_template])(0))
         elif c < 0.9:
